@@ -332,6 +332,22 @@ Example C05_nonvacuous_default :
 Proof. cbv zeta. repeat split; vm_compute; reflexivity. Qed.
 
 (* ---------------------------------------------------------------------------------------------- *)
+(* round 6: outcomes are values                                                                   *)
+
+(* What an append / a validation reported (accepted, or the error with the columns it names) is part of the
+   history's output once and for all: running further operations afterwards - further appends, validations
+   through this or any other schema object, in-place changes - leaves every earlier outcome as it was.  The
+   correspondence reads every caught exception a second time after all later operations and compares both
+   readings with the same model output. *)
+Theorem C05_outcomes_are_final :
+  (forall (f : frame) (es more : list entry),
+     firstn (length es) (snd (run f (es ++ more))) = snd (run f es)) /\
+  (forall (st : sstate) (ops more : list sop),
+     firstn (length ops) (snd (srun st (ops ++ more))) = snd (srun st ops)).
+Proof. exact outcomes_are_final. Qed.
+Print Assumptions C05_outcomes_are_final.
+
+(* ---------------------------------------------------------------------------------------------- *)
 (* non-vacuity                                                                                    *)
 
 (* a classed three-column schema (INTEGER not null, VARCHAR, untyped), a conforming record given in another
